@@ -115,6 +115,16 @@ func main() {
 				continue
 			}
 			// pinned as not well formed: not part of the environment, but its descriptor and `nwf_` obligation are emitted
+			// — unless it refers to a type outside the environment (itself included): then it has no descriptor at all
+			resolvable := true
+			for _, dep := range u.Closure(u.Named[t.name]) {
+				if _, ok := idx[dep]; !ok {
+					resolvable = false
+				}
+			}
+			if !resolvable {
+				continue
+			}
 			fmt.Fprintf(&sb, "/-- Go type `%s` -/\ndef desc_%s : Ty := %s\n", t.name, tlbx.LeanIdent(t.name), u.Named[t.name].Lean(idx))
 			topNames = append(topNames, t.name)
 			continue
